@@ -399,8 +399,8 @@ Proof.
     rewrite (collect_json_rt _ tup js HFv Hc). simpl. rewrite map_json_rt_combine. reflexivity.
 Qed.
 
-Theorem roundtrip_json : forall E v, representable E v = true ->
-  exists j, serialize_value v = SOk j /\ deser E j = DOk v /\ deser E (json_rt j) = DOk v.
+Theorem roundtrip_json_pinned : forall E v, representable E v = true ->
+  exists j, serialize_value_pinned v = SOk j /\ deser E j = DOk v /\ deser E (json_rt j) = DOk v.
 Proof.
   intros E v Hr. destruct (roundtrip E v Hr true) as [j [Hs Hd]].
   exists j. split; [exact Hs|]. split; [exact Hd|].
@@ -486,15 +486,15 @@ Proof.
 Qed.
 
 (* ---------------------------------------------------------------- from_dict on a saved system *)
-Theorem system_roundtrip : forall E c ps, representable E (PObj c ps) = true ->
-  exists j, serialize_value (PObj c ps) = SOk j /\
+Theorem system_roundtrip_pinned : forall E c ps, representable E (PObj c ps) = true ->
+  exists j, serialize_value_pinned (PObj c ps) = SOk j /\
             from_dict E j = DOk (PObj c ps) /\ from_dict E (json_rt j) = DOk (PObj c ps).
 Proof.
-  intros E c ps Hr. destruct (roundtrip_json E _ Hr) as [j [Hs [Hd Hdj]]].
+  intros E c ps Hr. destruct (roundtrip_json_pinned E _ Hr) as [j [Hs [Hd Hdj]]].
   exists j. split; [exact Hs|].
   assert (Hid : is_scoped_identifier E c = true).
   { simpl in Hr. repeat (apply andb_true_iff in Hr; destruct Hr as [Hr ?]). assumption. }
-  unfold serialize_value in Hs. simpl in Hs.
+  unfold serialize_value_pinned in Hs. simpl in Hs.
   destruct (collect _) as [js|]; [|discriminate]. inversion Hs; subst j. clear Hs.
   split.
   - unfold from_dict. simpl aget. cbv iota beta. rewrite Hid. exact Hd.
